@@ -1,5 +1,7 @@
 import Audit.Tool
 import Adb.Props.C14
 import Adb.Props.C01Tokens
+import Adb.Props.TypeTable
 #audit_module Adb.Props.C14
 #audit_module Adb.Props.C01Tokens
+#audit_module Adb.Props.TypeTable
